@@ -7,21 +7,15 @@
   for exact arithmetic, for the software binary64 the driver runs, and for any other
   implementation of the interface.
 
-  NOT proved here (kept as statements, carried by the correspondence stream and the
-  harness oracle only):
-    * print_f_buffer_iff — for the ORIGINAL, unguarded code: the run faults iff
-      1 + exponent text + separator + fraction digits + point + integer digits > 65.
-      Only the two directions actually used are proved: the repaired code never faults
-      (`print_f_safe`, all instances) and the original code does fault on a concrete
-      argument (`print_f_safe_orig_witness`).
-    * print_f_exact_Q — over `exactA`, %.pf prints round-half-away(r * 10^p) / 10^p and
-      %e the normalised mantissa/exponent.  Only evaluated on samples (`example`s below,
-      kernel-checked), not proved for all rationals.
-    * termination of the two normalisation loops `while (ip >= base)` / `while (ip == 0)`
-      for finite arguments: over binary64 they need at most 308 / 324 passes; the model
-      runs them with fuel 1200 and would print `diverged`, the harness has a 3 s watchdog.
-      Every other loop of print_f is bounded by a constant of the configuration or by
-      `precision` by construction (structural recursion in the model).
+  What is and is not proved is listed in notes/C13.md and checks/C13.json (level_text).  In short:
+  safety / count / layout for EVERY arithmetic instance; for binary64 (and every rounding with the
+  laws `Lawful`, resp. `Lawful` + `Sharp`): totality, the ISO shape of the %f/%e text against the
+  independent predicate `isoShape`, that the buffer guard never truncates, and the accumulated
+  rounding error of the digit generation (half a unit + 2*K*u*x).  NOT proved: print_f_buffer_iff for the
+  unguarded original (only its two used directions), the shape of %g (finding C13-g-style-carry; witness
+  `print_f_iso_shape_g_witness`), that the digit emission loops print exactly the decimal expansion
+  of the numbers handed to them, the error bound for denormals / precision > 22 over binary64 / %g,
+  the tight pass counts 308 / 324.
 -/
 import IgrisModel.C13.Lemmas
 import IgrisModel.C13.Total2
@@ -412,7 +406,8 @@ theorem print_f_iso_shape_g_witness :
     isoShape .g {} 0 0 false "1000000".toList = false ∧ isoShape .g {} 0 0 false "1e+06".toList = true := by
   decide +kernel
 
-/-- **print_f_digits_error_e** (accumulated rounding error of the digit generation, %e) — for ANY lawful rounding
+/-- **print_f_digits_error_e_partial** (accumulated rounding error of the digit generation, %e; `_partial`: restricted
+to arguments in the normal range `d ≤ x·u`, i.e. denormals are excluded, and to precision ≤ PRINT_F_FRAC_MAX) — for ANY lawful rounding
 with unit roundoff `u`: the decimal number `(a + b/10^sc)·10^e` whose digits `digitsOf` hands to the emission loops
 (`a` = integer digit, `b` = the `sc` generated fraction digits as an integer, `e` = decimal exponent) differs from
 the argument by at most HALF A UNIT of the last printed digit plus `2·K·u·|x|`, `K = |e| + 2 + sc` = the number of
@@ -422,7 +417,7 @@ fraction digit), whenever `K·u ≤ 1/2`.  Proved by induction over normDown / n
 the normal range (`d ≤ x·u`), fractions of values ≥ 1 are not tiny, 10·v < 10 for v < 1 (`TenOk`; needed: without it
 the code's renormalisation adds the already scaled fraction), `POW(10, n) = 10^n` up to the precision, precision ≤
 PRINT_F_FRAC_MAX. -/
-theorem print_f_digits_error_e {rnd : Rounding} (L : Lawful rnd) (pw : Nat → Nat → FV) (N fuel : ℕ) (x : ℚ)
+theorem print_f_digits_error_e_partial {rnd : Rounding} (L : Lawful rnd) (pw : Nat → Nat → FV) (N fuel : ℕ) (x : ℚ)
     (precision : ℤ) (ops : Ops)
     (hx : rnd x = some x) (h0 : 0 < x) (hN : x < 10 * 8 ^ N) (hN' : 1 ≤ x * 8 ^ N) (hf : N ≤ fuel)
     (hNb : N + 2 ≤ 2 ^ 30) (hp0 : 0 ≤ precision) (hp1 : precision ≤ 340)
@@ -440,9 +435,9 @@ theorem print_f_digits_error_e {rnd : Rounding} (L : Lawful rnd) (pw : Nat → N
           ≤ 1 / 2 * (10 : ℚ) ^ (e - d.precision) + 2 * K * L.u * x :=
   digits_error_e L pw N fuel x precision ops hx h0 hN hN' hf hNb hp0 hp1 hdu hdn hfr hten hpw
 
-/-- **print_f_digits_error_f** (%f): no normalisation; `|a + b/10^sc − x| ≤ ½·10^-precision + 2·K·u·x`,
+/-- **print_f_digits_error_f_partial** (%f): no normalisation; `|a + b/10^sc − x| ≤ ½·10^-precision + 2·K·u·x`,
 `K = sc + 1` (one multiplication per generated fraction digit, one rounded `ip + 1.0` on a carry). -/
-theorem print_f_digits_error_f {rnd : Rounding} (L : Lawful rnd) (pw : Nat → Nat → FV) (fuel : ℕ) (x : ℚ)
+theorem print_f_digits_error_f_partial {rnd : Rounding} (L : Lawful rnd) (pw : Nat → Nat → FV) (fuel : ℕ) (x : ℚ)
     (precision : ℤ) (ops : Ops)
     (hx : rnd x = some x) (h0 : 0 < x) (hp0 : 0 ≤ precision) (hp1 : precision ≤ 340)
     (hdu : L.d ≤ L.u) (hdn : L.d ≤ x * L.u)
